@@ -1,0 +1,85 @@
+//go:build verif
+
+package interp
+
+// Contracts for properties C04 (copy / share discipline) and C07 (host boundary: result stores).
+// Checked by /verif/govc. Comments only.
+//
+// Vocabulary: a reflect.Value handle denotes a location; rvInt/rvFloat/rvComplex/rvString/rvBool/
+// rvIface are its contents; fresh(x) means "allocated by this execution of the closure".
+// Value functions (results of genValue & co.) are pure lookups: fn-values = pure.
+
+//@ trusted func getFrame(f, l) (r)
+//@   pure
+
+//@ pred sameContent(a, b): rvInt(a) == rvInt(b) && rvFloat(a) == rvFloat(b) && rvComplex(a) == rvComplex(b) && rvString(a) == rvString(b) && rvBool(a) == rvBool(b) && rvIface(a) == rvIface(b)
+
+// x = y : the destination location receives a copy of the source's content; nothing is re-allocated.
+//@ lit assign exec#4 (f) (ret)
+//@   props C04
+//@   opt safety = off
+//@   opt fn-values = pure
+//@   requires f != nil
+//@   ensures copies-content: rvInt(d(f)) == old(rvInt(s(f))) && rvString(d(f)) == old(rvString(s(f))) && rvBool(d(f)) == old(rvBool(s(f))) && rvFloat(d(f)) == old(rvFloat(s(f))) && rvIface(d(f)) == old(rvIface(s(f)))
+//@   ensures continues: ret == next
+//@   canary rvInt(d(f)) == old(rvInt(d(f)))
+
+// x := y : the variable's slot is a NEW location holding the copy (the previous location, possibly
+// captured by a closure, is left untouched).
+//@ lit assign exec#3 (f) (ret)
+//@   props C04
+//@   opt safety = off
+//@   opt fn-values = pure
+//@   opt opaque-calls = *
+//@   opt opaque-havoc = none
+//@   requires f != nil
+//@   ensures fresh-slot: fresh(getFrame(f, l).data[ind])
+//@   ensures holds-copy: rvInt(getFrame(f, l).data[ind]) == old(rvInt(s(f))) && rvString(getFrame(f, l).data[ind]) == old(rvString(s(f))) && rvIface(getFrame(f, l).data[ind]) == old(rvIface(s(f)))
+//@   ensures previous-location-untouched: rvInt(old(getFrame(f, l).data[ind])) == old(rvInt(getFrame(f, l).data[ind])) && rvIface(old(getFrame(f, l).data[ind])) == old(rvIface(getFrame(f, l).data[ind]))
+//@   canary getFrame(f, l).data[ind] == old(getFrame(f, l).data[ind])
+
+// a, b = b, a : every right-hand side is read into a fresh temporary before any left-hand side is
+// written (first loop), whatever the kind of destination.
+//@ lit assign mentions:types (f) (ret)
+//@   props C04
+//@   opt safety = off
+//@   opt fn-values = pure
+//@   opt loops = havoc
+//@   opt opaque-calls = *
+//@   opt opaque-havoc = none
+//@   requires f != nil
+//@   loop 1 index i
+//@   invariant temporaries-are-fresh-copies: len(t) == len(svalue) && forall(k, 0, i, n.child[k].ident != "_" ==> fresh(t[k]) && rvInt(t[k]) == old(rvInt(svalue[k](f))) && rvString(t[k]) == old(rvString(svalue[k](f))) && rvIface(t[k]) == old(rvIface(svalue[k](f))))
+//@   invariant sources-not-yet-written: forall(k, 0, len(svalue), rvInt(svalue[k](f)) == old(rvInt(svalue[k](f))) && rvString(svalue[k](f)) == old(rvString(svalue[k](f))) && rvIface(svalue[k](f)) == old(rvIface(svalue[k](f))))
+
+// Result stores of multi-value calls (C07 for host callees, C04 for interpreted ones): a variable
+// newly declared by `:=` gets a NEW slot; a redeclared one (already in scope) and a plain `=`
+// destination are assigned in place, so that earlier pointers and closures still see it.
+//@ pred slotOf(f, c): getFrame(f, c.level).data[c.findex]
+//@ lit callBin mentions:defineXStmt (f) (ret)
+//@   props C07
+//@   opt safety = off
+//@   opt fn-values = pure
+//@   opt loops = havoc
+//@   opt opaque-calls = *
+//@   opt opaque-havoc = none
+//@   requires f != nil && n != nil && n.anc != nil
+//@   requires [assume] distinct-destinations: forall(a, 0, len(rvalues), forall(b, 0, len(rvalues), a != b ==> n.anc.child[a].findex != n.anc.child[b].findex))
+//@   loop 1 index j
+//@   invariant slots-untouched: forall(k, 0, len(rvalues), slotOf(f, n.anc.child[k]) == old(slotOf(f, n.anc.child[k])))
+//@   loop 2 index i
+//@   invariant slots: forall(k, 0, i, rvalues[k] != nil ==> ite(n.anc.kind == defineXStmt && !n.anc.child[k].redeclared, fresh(slotOf(f, n.anc.child[k])), slotOf(f, n.anc.child[k]) == old(slotOf(f, n.anc.child[k]))))
+//@   invariant untouched-so-far: forall(k, i, len(rvalues), slotOf(f, n.anc.child[k]) == old(slotOf(f, n.anc.child[k])))
+
+//@ lit assignFromCall exec#1 (f) (ret)
+//@   props C04
+//@   opt safety = off
+//@   opt fn-values = pure
+//@   opt loops = havoc
+//@   opt opaque-calls = *
+//@   opt opaque-havoc = none
+//@   requires f != nil && n != nil
+//@   requires [assume] distinct-destinations: forall(a, 0, len(dvalue), forall(b, 0, len(dvalue), a != b ==> n.child[a].findex != n.child[b].findex))
+//@   loop 1 index i
+//@   invariant slots: forall(k, 0, i, dvalue[k] != nil ==> ite(n.kind == defineXStmt && !n.child[k].redeclared, fresh(slotOf(f, n.child[k])), slotOf(f, n.child[k]) == old(slotOf(f, n.child[k]))))
+//@   invariant untouched-so-far: forall(k, i, len(dvalue), slotOf(f, n.child[k]) == old(slotOf(f, n.child[k])))
